@@ -42,7 +42,7 @@ WCOLS = 'IJK'
 NUMS = [0, 1, 2, 3, 5, -1, 2.5, 10, 100, -3.5]
 TEXTS = ['a', 'A', 'ab', 'AB', 'abc', 'b', 'xyz', 'a*', 'a?c', '', ' ',
          'apple', 'Apple pie', '5', '2.5', '-1', 'x~y', '~', 'a.c', '(x',
-         'a+b', '[ab]', 'a\\b', 'x*y', 'aa', 'aba', 'abab', 'B']
+         'a+b', '[ab]', 'a\\b', 'x*y', 'aa', 'aba', 'abab', 'B', 'ab\n', 'a\nb']
 CELLS = NUMS + TEXTS + [True, False, None, None] + ['#N/A', '#DIV/0!']
 UNASSERTED = object()
 
@@ -78,7 +78,7 @@ def wildcard_re(pattern):
         else:
             out.append(re.escape(ch))
         i += 1
-    return re.compile('^' + ''.join(out) + '$', re.S | re.I), wild
+    return re.compile('(?:' + ''.join(out) + r')\Z', re.S | re.I), wild
 
 
 def matches(x, c):
